@@ -519,6 +519,7 @@ def main() -> int:
         c11_trace.selftest(run, sc, trace_records)
         if TIERS[tier]["symbolic"]:
             symbolic_round_trips(run)
+        derived_frame_round_trips(run)
     run.assumptions += [
         "points are Pythagorean (x^2+y^2 and x^2+y^2+z^2 perfect squares) so that SymPy evaluates every trigonometric "
         "value exactly; the coordinate singularities (x = y = 0) are excluded by the statement",
@@ -554,13 +555,84 @@ def symbolic_round_trips(run):
             run.outside(f"symbolic round trip {kind}: SymPy timed out")
 
 
+DERIVED_POINTS = [((3, 4, 12), (4, -3, 12)), ((-3, 4, 12), (3, 4, -12)), ((5, -12, 84), (-4, -3, 12))]
+
+
+def _derived_frames():
+    """Cartesian frames DERIVED from the root frame (name, frame): turned about z / about x by the angle with cosine 3/5
+    and sine 4/5, and turned twice.  Each plays the part of Rebase!"cart" for the curvilinear systems derived from it."""
+    import sympy as sp
+    from symplyphysics.core.coordinate_systems.coordinate_systems import coordinates_rotate
+    c = _init()["cart"]
+    ang = sp.atan(sp.Rational(4, 3))
+    rz = coordinates_rotate(c, ang, c.coord_system.k)
+    rx = coordinates_rotate(c, ang, c.coord_system.i)
+    rzx = coordinates_rotate(rz, ang, rz.coord_system.i)
+    return [("rot_z", rz), ("rot_x", rx), ("rot_z_then_x", rzx)]
+
+
+def derived_frame_round_trips(run):
+    """The model paths Rebase(cyl).Rebase(cart) and Rebase(sph).Rebase(cart) of spec/Rebase.tla with a DERIVED (rotated)
+    Cartesian frame in the part of "cart": the curvilinear system is made by coordinates_transform(frame, ...).  The
+    statement's clauses are checked with the frame's own components as the Cartesian data: round trip returns the
+    components; magnitude and dot product computed in the curvilinear system equal the Cartesian ones.  Exact where
+    SymPy reduces the difference to 0; otherwise compared to 40 digits (equal: counted as undecided; different: violation)."""
+    import sympy as sp
+    from symplyphysics import Vector
+    from symplyphysics.core.coordinate_systems.coordinate_systems import CoordinateSystem, coordinates_transform
+    from symplyphysics.core.vectors.arithmetics import dot_vectors, vector_magnitude
+    kinds = {"cyl": CoordinateSystem.System.CYLINDRICAL, "sph": CoordinateSystem.System.SPHERICAL}
+
+    def verdict(key, clause, got, want, replay):
+        try:
+            d = sp.simplify(sp.sympify(got) - want)
+            if d == 0:
+                run.count(f"derived frame {key}: {clause}")
+                return
+            num = abs(complex(sp.N(d, 40)))
+        except HardTimeout:
+            raise
+        except Exception as exc:  # pylint: disable=broad-except
+            report(run, f"derived frame {key}: {clause}", f"value {got!r} cannot be evaluated ({type(exc).__name__})", replay)
+            return
+        if num < 1e-30:
+            run.outside("derived frame: equal to 40 digits, SymPy could not reduce the difference")
+        else:
+            report(run, f"derived frame {key}: {clause}", f"library {got}, Cartesian data give {want}", replay)
+
+    for fname, frame in _derived_frames():
+        for kind, system in kinds.items():
+            for a, b in DERIVED_POINTS:
+                key = f"{fname} cart->{kind}->cart a={list(a)} b={list(b)}"
+                replay = {"kind": "derived", "frame": fname, "system": kind, "a": list(a), "b": list(b)}
+                try:
+                    with time_limit(STEP_SECONDS):
+                        cur = coordinates_transform(frame, system)
+                        va, vb = Vector(list(a), frame), Vector(list(b), frame)
+                        ca, cb = va.rebase(cur), vb.rebase(cur)
+                        back = ca.rebase(frame)
+                        comps = list(back.components) + [0] * (3 - len(back.components))
+                        for i, (g, w) in enumerate(zip(comps, a)):
+                            verdict(key, f"RebasePreservesObject component {i}", g, sp.Integer(w), replay)
+                        verdict(key, "MagnitudeIsNorm", vector_magnitude(ca), sp.sqrt(sum(t * t for t in a)), replay)
+                        verdict(key, "dot product", dot_vectors(ca, cb), sp.Integer(sum(s * t for s, t in zip(a, b))), replay)
+                        run.traces += 1
+                except HardTimeout:
+                    run.outside("derived frame: SymPy timed out")
+                except Exception as exc:  # pylint: disable=broad-except
+                    report(run, f"derived frame {key}: refused", f"{type(exc).__name__}: {str(exc)[:200]}", replay)
+
+
 def replay_file(path: str) -> int:
     data = json.loads(open(path).read())
     c = data["case"]
-    if c.get("kind") == "symbolic":
+    if c.get("kind") in ("symbolic", "derived"):
         run = Run(PID, "replay")
-        symbolic_round_trips(run)
-        bad = [v["what"] for v in run.violations]
+        if c["kind"] == "symbolic":
+            symbolic_round_trips(run)
+        else:
+            derived_frame_round_trips(run)
+        bad = [f"{v['key']}: {v['what']}" for v in run.violations]
     else:
         acts = [(st["act"], st["arg"]) for st in c["path"]]
         group = dict(obj=c["obj"], start=c["start"], a=c["a"], b=c["b"], ctor=c["ctor"], gid=0,
